@@ -627,6 +627,14 @@ class ClientGenerator:
                 ]
             ),
             body=[
+                # one set for the whole operation: names stay unique across fields
+                generate_ann_assign(
+                    target=generate_name("used_names"),
+                    annotation=generate_subscript(
+                        generate_name("Set"), generate_name("str")
+                    ),
+                    value=generate_call(func=generate_name("set")),
+                ),
                 generate_return(
                     value=generate_list_comp(
                         elt=generate_call(
@@ -636,7 +644,7 @@ class ClientGenerator:
                                 ),
                                 attr="to_ast",
                             ),
-                            args=[generate_name("idx")],
+                            args=[generate_name("idx"), generate_name("used_names")],
                         ),
                         generators=[
                             generate_comp(
@@ -675,7 +683,9 @@ class ClientGenerator:
                 [BASE_GRAPHQL_FIELD_CLASS_NAME], BASE_OPERATION_FILE_PATH.stem, level=1
             )
         )
-        self._add_import(generate_import_from([DICT, TUPLE, LIST, ANY], "typing"))
+        self._add_import(
+            generate_import_from([DICT, TUPLE, LIST, ANY, "Set"], "typing")
+        )
 
         self._class_def.body.append(
             self.create_execute_custom_operation_method(async_client)
